@@ -62,7 +62,10 @@ void h_run(Case &c) {
   Draw &d = c.head;
   static const char *syns[] = {"pack:2 [numa] [numa] core:2 pu:2", "[numa] pack:2 [numa] l3:2 [numa] pu:2", "numa:4 pu:2", "pack:3 [numa] pu:1", "pu:4", "pack:2 numa:2 core:2 pu:1", "[numa(memory=4GB)] [numa] pack:2 [numa(memory=256MB)] core:2 pu:2"};
   const char *syn = d.pick(syns); c.descf("synthetic=\"%s\"", syn);
-  hwloc_topology_t t; hwloc_topology_init(&t); hwloc_topology_set_synthetic(t, syn); CHECK(c, hwloc_topology_load(t) == 0, "setup", "load failed");
+  hwloc_topology_t t; hwloc_topology_init(&t); hwloc_topology_set_synthetic(t, syn);
+  // (NO_MEMATTRS removes the predefined attributes the model starts from, so only the two other NO_* flags are generated here; F-C13-c)
+  { unsigned long tf = 0; if (d.chance(1, 4)) { if (d.chance(1, 2)) tf |= HWLOC_TOPOLOGY_FLAG_NO_DISTANCES; if (d.chance(1, 2)) tf |= HWLOC_TOPOLOGY_FLAG_NO_CPUKINDS; } if (tf) { hwloc_topology_set_flags(t, tf); c.descf(" flags=0x%lx", tf); c.cls("topology-flags:NO_*"); } }
+  CHECK(c, hwloc_topology_load(t) == 0, "setup", "load failed");
   Model model; for (hwloc_memattr_id_t id = 2; id < 8; id++) { const char *nm = NULL; unsigned long fl = 0; CHECK(c, hwloc_memattr_get_name(t, id, &nm) == 0, "setup", "predefined attribute %u missing", id); hwloc_memattr_get_flags(t, id, &fl); model[id] = Attr{nm, fl, {}}; }
   unsigned nextid = 8; { const char *nm; CHECK(c, hwloc_memattr_get_name(t, 8, &nm) < 0, "setup", "unexpected attribute id 8"); }
   USet rootcs; to_uset(hwloc_get_root_obj(t)->cpuset, rootcs); std::vector<unsigned> pus(rootcs.begin(), rootcs.end());
